@@ -120,7 +120,9 @@ Inductive aclass :=
 | AServerRejectsWithin     (* server refused a well-formed report within the configuration (X <> 0) *)
 | AViewerSet               (* viewer's "no data from this set would be uploaded" <> build not approved *)
 | AViewerCounter           (* viewer's excluded-counter list / Active flag <> item not approved *)
-| AViewerUploader.         (* viewer's verdict differs from what the uploader did at X = 0 *)
+| AViewerUploader          (* viewer's verdict differs from what the uploader did at X = 0 *)
+| AViewerReportFalse       (* report view calls an item excluded that is approved (the uploader sends it) *)
+| AViewerReportStackOmitted. (* report view does not mention an unapproved stack counter of a local report (finding 19) *)
 
 (* server side: report r (produced by the uploader iff from_uploader) got verdict v *)
 Definition server_check (u : upload_cfg) (from_uploader : bool) (week_ok semver_ok : bool) (r : report) (v : verdict)
@@ -173,3 +175,38 @@ Definition viewer_check (u : upload_cfg) (f : cfile) (s : vsummary) (meta : list
          then [] else [AViewerUploader]
        else [])
   end.
+
+(* ---------------------------------------------------------------- viewer: weekly reports (local.<week>.json, <week>.json) *)
+
+(* newTelemetryReport: per program of a report the summary is computed from
+   the five identity fields and the program's COUNTERS map only; the Stacks
+   of the report are neither shown nor examined *)
+Definition report_program_file (p : ident * body) : cfile :=
+  mkFile (fst p) (map (fun kv : bytes * Z => (fst kv, 0%N)) (fst (snd p))).
+
+Definition viewer_report_summary (c : config) (p : ident * body) : vsummary :=
+  viewer_summary c (report_program_file p).
+
+Definition summary_names (s : vsummary) : list bytes := match s with SCounters l => l | _ => [] end.
+
+(* oracle: the program p of a weekly report was described by summary s *)
+Definition viewer_report_check (u : upload_cfg) (p : ident * body) (s : vsummary) : list aclass :=
+  let i := fst p in
+  let prog := id_program i in
+  let approved := approved_buildb u i in
+  let counters := map fst (fst (snd p)) in
+  let stacks := map fst (snd (snd p)) in
+  (if Bool.eqb (summary_excludes_set s) (negb approved) then [] else [AViewerSet]) ++
+  (if approved then
+     (* no false claim: every listed name is an item of the program that the uploader drops *)
+     (if forallb (fun n => existsb (fun k => beq k n && negb (approved_counterb u prog k)) counters ||
+                           existsb (fun k => beq (stack_title k) n && negb (approved_stackb u prog k)) stacks)
+                 (summary_names s)
+      then [] else [AViewerReportFalse]) ++
+     (* every plain counter the uploader drops is listed *)
+     (if forallb (fun k => approved_counterb u prog k || memb k (summary_names s)) counters
+      then [] else [AViewerCounter]) ++
+     (* every stack counter the uploader drops is listed (by its title) *)
+     (if forallb (fun k => approved_stackb u prog k || memb (stack_title k) (summary_names s)) stacks
+      then [] else [AViewerReportStackOmitted])
+   else []).
